@@ -60,6 +60,8 @@ def f_pool(tier):
         ("Stack", "k", (("B", "mul", ti, x), tj)),
         ("Cat", "i", (ti, tik), "i"),
         ("Cat", "l", (tij, tij), "j"),
+        T(("i", "k", "h"), lid=73, sizes={"h": 2}),  # three inputs of one size: chains a->b, b->c with c kept
+        ("B", "mul", T(("i", "k", "h"), lid=74, sizes={"h": 2}), x),
         ("Cat", "p", (T(("p",), lid=68, sizes={"p": 5}), T(("p",), lid=69, sizes={"p": 4})), "p"),
         ("Cat", "p", (T(("p", "i"), lid=70, sizes={"p": 3}), T(("p",), lid=71, sizes={"p": 2}), T(("i", "p"), lid=72, sizes={"p": 4})), "p"),
         ("Slice", "i", 0, 3, 1, 3),
@@ -80,7 +82,10 @@ def f_pool(tier):
 def maps_for(f, tier):
     t = lang.ty(f)
     names = list(t.inputs)
-    menus = {n: gen.subst_values(n, t.inputs[n], tier) for n in names}
+    menus = {n: gen.subst_values(n, t.inputs[n], tier, siblings=t.inputs) for n in names}
+    # renamings first: chains / cycles of renamings among the term's own inputs are the sharpest cases
+    for n in names:
+        menus[n] = [v for v in menus[n] if v[0] == "V"] + [v for v in menus[n] if v[0] != "V"]
     out = []
     for n in names:
         for v in menus[n]:
